@@ -21,7 +21,9 @@ TRUSTED = ["partial: the theorems cover the modelled cores (cli.Bulk's reader/wo
            "function outside the modelled helpers are covered by the snapshot sweep and the race-detector stress, which are "
            "SEARCH, not proof (the race detector is sampling)",
            "payload equality uses SHA-1 digests of canonical JSON as the bodies handed to the acceptance predicate",
-           "snapshot walker harness/c15.go (reflection up to slice capacity), stress program harness/c15race"]
+           "snapshot walker harness/c15.go (reflection up to slice capacity), stress program harness/c15race",
+           "signature verifier harness/c15verify.go (gobl.Envelope.Verify with the public half of the request's key); "
+           "full-document generator harness/c15docs"]
 FID = "C15-tagset-merge-shared-append"
 
 
@@ -119,7 +121,9 @@ def snapshot_sweep(c, quick):
 
 def equiv_sweep(c, quick):
     """result equivalence under history and concurrency: the same workload list (examples, synthetic invoices per regime,
-    per regime+addon, every ordered pair of addons on its home regimes, random combinations) calculated in a seeded order,
+    per regime+addon, every ordered pair of addons on its home regimes, random combinations; FULL invoices / orders / payments /
+    deliveries - payment instructions and advances for every payment means key, terms, delivery, ordering, identities, charges,
+    no hand-made extension - for every add-on and every ordered add-on pair, harness/c15docs) calculated in a seeded order,
     in the reverse order and on 16 goroutines, each in a FRESH process; a workload's result must be the same in all three."""
     nrand = 40 if quick else 3000
     outs = {}
@@ -127,22 +131,69 @@ def equiv_sweep(c, quick):
         p = subprocess.run([os.path.join(BIN, "vharness"), "c15equiv", REPO, str(c.seed), str(nrand), mode], stdout=subprocess.PIPE,
                            stderr=subprocess.PIPE, text=True, timeout=1800, env=GOENV)
         if p.returncode != 0:
+            # (a crash of the concurrent run - e.g. "concurrent map writes" - must not hide what the two sequential orders show)
             c.report("result-equivalence sweep failed (%s): %s" % (mode, p.stderr[-600:]), {"machinery": "c15equiv"}, no_input=True)
-            return
+            continue
         outs[mode] = dict(l.split("\t", 1) for l in p.stdout.splitlines() if "\t" in l)
-    names = sorted(outs["fwd"])
+    if len(outs) < 2:
+        return
+    names = sorted(next(iter(outs.values())))
     shown = 0
     for n in names:
-        c.count("result-equivalence", 3, n)
+        c.count("result-equivalence", len(outs), n)
         r = {m: outs[m].get(n) for m in outs}
         if len(set(r.values())) > 1:
             shown += 1
             if shown <= 3:
-                c.report("the calculated result of %s depends on what the process handled before or at the same time: %s" % (n, r),
-                         {"workload": n, "results": r, "clause": "concurrent and repeated use gives the same result as a fresh sequential run",
+                d = subprocess.run([os.path.join(BIN, "vharness"), "c15equiv", REPO, str(c.seed), str(nrand), "doc:" + n],
+                                   stdout=subprocess.PIPE, stderr=subprocess.PIPE, text=True, timeout=600, env=GOENV)
+                where = equiv_where(c, nrand, n, r)
+                c.report("the calculated result of %s depends on what the process handled before or at the same time: %s%s" %
+                         (n, r, "; first difference " + where if where else ""),
+                         {"workload": n, "document": d.stdout.strip()[:20000], "results": r, "first_difference": where,
+                          "clause": "concurrent and repeated use gives the same result as a fresh sequential run",
                           "rerun": "for m in fwd rev par; do bin/vharness c15equiv %s %d %d $m | grep -F '%s'; done" % (REPO, c.seed, nrand, n)})
+    full = [n for n in names if n.startswith("full:")]
     c.cov["result_equivalence"] = {"workloads": len(names), "orders": ["seeded shuffle", "its reverse", "16 goroutines"], "differing": shown,
-                                   "panics": sum(1 for v in outs["fwd"].values() if v == "panic")}
+                                   "full_documents": {"workloads": len(full),
+                                                      "kinds": sorted({n.split(":")[1] for n in full}),
+                                                      "payment_means_keys": sorted({n.rsplit("means=", 1)[1] for n in full}),
+                                                      "calculated": sum(1 for n in full if not str(outs[next(iter(outs))][n]).startswith(("calc-error", "parse-error", "panic")))},
+                                   "panics": sum(1 for v in next(iter(outs.values())).values() if v == "panic")}
+
+
+def equiv_where(c, nrand, name, r):
+    """Re-runs two orders that disagree with a dump of the workload's calculated document and names the first differing member."""
+    modes = sorted(r, key=lambda m: m == "par")     # the sequential orders first
+    a = next((m for m in modes), None)
+    b = next((m for m in modes if r[m] != r[a]), None)
+    if b is None:
+        return None
+    docs = {}
+    for m in (a, b):
+        p = subprocess.run([os.path.join(BIN, "vharness"), "c15equiv", REPO, str(c.seed), str(nrand), "dump:%s:%s" % (m, name)],
+                           stdout=subprocess.PIPE, stderr=subprocess.PIPE, text=True, timeout=1800, env=GOENV)
+        try:
+            docs[m] = json.loads(p.stdout.strip().splitlines()[-1])
+        except Exception:  # noqa
+            return None
+
+    def diff(x, y, path):
+        if isinstance(x, dict) and isinstance(y, dict):
+            for k in sorted(set(x) | set(y)):
+                if x.get(k) != y.get(k):
+                    if k in x and k in y and isinstance(x[k], (dict, list)) and type(x[k]) is type(y[k]):
+                        return diff(x[k], y[k], path + "." + k)
+                    return "%s.%s: %s in order %s, %s in order %s" % (path, k, json.dumps(x.get(k))[:200], a, json.dumps(y.get(k))[:200], b)
+        if isinstance(x, list) and isinstance(y, list):
+            for i in range(max(len(x), len(y))):
+                xi, yi = (x[i] if i < len(x) else None), (y[i] if i < len(y) else None)
+                if xi != yi:
+                    return diff(xi, yi, "%s[%d]" % (path, i))
+        return "%s: %s in order %s, %s in order %s" % (path, json.dumps(x)[:200], a, json.dumps(y)[:200], b)
+    if docs[a] == docs[b]:
+        return None     # (did not reproduce in the re-run: concurrency dependent)
+    return diff(docs[a], docs[b], "doc")
 
 
 def wire_list(xs, raw=False):
@@ -281,6 +332,21 @@ class Standalone:
     def __init__(self, keyfile, pubfile, tmp):
         self.keyfile, self.pubfile, self.tmp, self.cache = keyfile, pubfile, tmp, {}
         self.n = 0
+        self.defaultkey = json.load(open(keyfile))
+        self.keyfiles = {canon(self.defaultkey): keyfile}     # private JWK -> file holding it
+        self.sigchecks = {"ok": 0}
+
+    def keyfile_of(self, jwk):
+        """The key a sign request is to be signed with: its own "privatekey", else the stream's default key."""
+        if jwk is None:
+            return self.keyfile
+        k = canon(jwk)
+        if k not in self.keyfiles:
+            f = os.path.join(self.tmp, "own%d.jwk" % len(self.keyfiles))
+            with open(f, "w") as fh:
+                json.dump(jwk, fh)
+            self.keyfiles[k] = f
+        return self.keyfiles[k]
 
     def cli(self, args, data):
         p = subprocess.run([os.path.join(BIN, "gobl")] + args + ["-"], input=data, stdout=subprocess.PIPE,
@@ -311,7 +377,7 @@ class Standalone:
             rc, out, err = self.cli(["build"], data)
             res = (json.loads(out), None) if rc == 0 else (None, json.loads(err))
         elif a == "sign":
-            rc, out, err = self.cli(["sign", "-k", self.keyfile], data)
+            rc, out, err = self.cli(["sign", "-k", self.keyfile_of(pl.get("privatekey"))], data)
             res = (json.loads(out), None) if rc == 0 else (None, json.loads(err))
         elif a == "correct":
             opts = base64.b64decode(pl.get("options", "")).decode() if pl.get("options") else ""
@@ -326,8 +392,11 @@ class Standalone:
         return res
 
 
-def gen_stream(rng, docs, signed_docs, pubkey, n, privkey=None):
-    """A request stream of mixed actions and latencies, plus the ending. Returns (requests, tail, ending)."""
+def gen_stream(rng, docs, signed_docs, pubkey, n, privkey=None, ownkeys=()):
+    """A request stream of mixed actions and latencies, plus the ending. Returns (requests, tail, ending).
+    Sign requests: about half rely on the stream's default key, the others bring their own "privatekey" (one of `ownkeys`,
+    all different from the default) - the request goroutines of one stream, and of later streams of the same server, share
+    the default key object."""
     reqs = []
     sleeps = ["0ms", "1ms", "3ms", "10ms", "25ms", "60ms", "150ms"]
     for i in range(n):
@@ -351,7 +420,9 @@ def gen_stream(rng, docs, signed_docs, pubkey, n, privkey=None):
         elif y < 0.78:
             r = {"action": "sign", "payload": {"data": rng.choice(docs)}}
             if privkey is not None:   # `gobl bulk` has no default key: the request carries it
-                r["payload"]["privatekey"] = privkey
+                r["payload"]["privatekey"] = rng.choice([privkey] + list(ownkeys))
+            elif ownkeys and rng.random() < 0.5:
+                r["payload"]["privatekey"] = rng.choice(list(ownkeys))
         elif y < 0.86:
             r = {"action": "correct", "payload": {"data": rng.choice(docs),
                                                   "options": base64.b64encode(rng.choice([b'{"type":"credit-note"}', b'{"type":"corrective","reason":"x"}', b'{}'])).decode()}}
@@ -387,8 +458,41 @@ def sha(s):
     return hashlib.sha1(s.encode()).digest()
 
 
+SIGNED_OK = "the key the request was to be signed with (its own privatekey, else the default key)"
+
+
+def sigcheck(sa, reqs, observed):
+    """The signature bytes are fresh on every call and are projected away; what must be equal to the standalone operation
+    is WHO signed: every successful sign result (bulk reply and standalone output alike) is verified against the public half
+    of the request's key by harness/c15verify.go and labelled `_signed_by`."""
+    items = []
+
+    def want(r, payload):
+        if isinstance(payload, dict) and isinstance(payload.get("sigs"), list) and "_signed_by" not in payload:
+            items.append((payload, r["payload"].get("privatekey") or sa.defaultkey))
+
+    for r in reqs:
+        if r["action"] == "sign" and isinstance(r.get("payload"), dict):
+            want(r, sa.expected(r)[0])
+    for o in observed:
+        j = o.get("seq_id") - 1 if isinstance(o.get("seq_id"), int) else -1
+        if not o.get("is_final") and 0 <= j < len(reqs) and reqs[j]["action"] == "sign" and isinstance(reqs[j].get("payload"), dict):
+            want(reqs[j], o.get("payload"))
+    if not items:
+        return
+    inp = "".join(json.dumps({"env": pl, "key": key}) + "\n" for pl, key in items)
+    p = subprocess.run([os.path.join(BIN, "vharness"), "c15verify"], input=inp, stdout=subprocess.PIPE, stderr=subprocess.PIPE,
+                       text=True, timeout=300, env=GOENV)
+    outs = [l for l in p.stdout.splitlines() if not l.startswith("WARNING conda")]
+    for i, (pl, key) in enumerate(items):
+        v = outs[i] if i < len(outs) else "verifier-failed"
+        sa.sigchecks[v] = sa.sigchecks.get(v, 0) + 1
+        pl["_signed_by"] = SIGNED_OK if v == "ok" else "NOT the request's key: the signature does not verify with its public half (%s)" % v
+
+
 def judge_stream(c, sa, reqs, pid, observed):
     """Builds the oracle line for one observed output and a readable diagnosis."""
+    sigcheck(sa, reqs, observed)
     exp = []
     for r in reqs:
         a = r["action"]
@@ -522,13 +626,20 @@ def _bulk_streams(c, quick, srv, keyfile, pubfile, pubkey, tmp):
         rc, out, err = sa.cli(["sign", "-k", keyfile], base64.b64decode(d))
         if rc == 0:
             signed.append(base64.b64encode(out.encode()).decode())
+    # keys of their own for sign requests (never the default key: whose key signed a reply is then decidable)
+    ownkeys = []
+    for k in range(3):
+        f = os.path.join(tmp, "req%d.jwk" % k)
+        rc, out = sh([os.path.join(BIN, "gobl"), "keygen", "-f", f], timeout=60)
+        if rc == 0 and os.path.exists(f):
+            ownkeys.append(json.load(open(f)))
     nstreams = 40 if quick else 600
     cases = []
     for k in range(nstreams):
         n = rng.randint(5, 60) if quick or rng.random() < 0.9 else rng.randint(100, 400)
         if k < 2:
             n = 1600 if k == 0 else 700     # long streams (several MiB in total): limits that accumulate over a stream show only here
-        reqs, tail, pid = gen_stream(rng, docs, signed, pubkey, n, None if srv else json.load(open(keyfile)))
+        reqs, tail, pid = gen_stream(rng, docs, signed, pubkey, n, None if srv else json.load(open(keyfile)), ownkeys)
         cases.append((reqs, tail, pid))
     lines, metas = [], []
     reordered = 0
@@ -580,7 +691,12 @@ def _bulk_streams(c, quick, srv, keyfile, pubfile, pubkey, tmp):
         c.report("bulk output is produced by NO schedule of the model (%d requests): %s" % (len(reqs), small[1] if small else why), rep)
     c.cov["bulk"] = {"streams": len(metas), "requests": sum(len(m[0]) for m in metas), "streams_with_reordered_replies": reordered,
                      "streams_ending_in_decode_error": sum(1 for m in metas if m[2] is not None), "rejected": rejected,
-                     "standalone_cli_invocations": sa.n, "transport": "HTTP POST /bulk on 127.0.0.1 (alternately Connection: close and keep-alive)" if srv else "gobl bulk (stdin)",
+                     "standalone_cli_invocations": sa.n,
+                     "sign_requests": {"own_key": sum(1 for m in metas for r in m[0] if r["action"] == "sign" and "privatekey" in r["payload"]),
+                                       "default_key": sum(1 for m in metas for r in m[0] if r["action"] == "sign" and "privatekey" not in r["payload"]),
+                                       "streams_mixing_both": sum(1 for m in metas if len({"privatekey" in r["payload"] for r in m[0] if r["action"] == "sign"}) == 2),
+                                       "signature_verifications": dict(sa.sigchecks)},
+                     "transport": "HTTP POST /bulk on 127.0.0.1 (alternately Connection: close and keep-alive)" if srv else "gobl bulk (stdin)",
                      "largest_stream_bytes": max([len(stream_text(m[0], m[1])) for m in metas] or [0]), "wall_s": round(time.time() - t0, 1)}
     if metas:
         c.sample({"bulk_stream_requests": len(metas[0][0]), "observed_seq_order": [o[1] for o in metas[0][4]][:20]})
@@ -602,6 +718,9 @@ def shrink_stream(c, srv, sa, reqs, tail, pid):
     def fails(rs):
         nonlocal why, tries
         tries += 1
+        if srv is not None:     # a fresh server per attempt: what an earlier stream did to the process must not count for this one
+            srv.stop()
+            srv.start()
         try:
             observed = parse_stream(run_bulk(srv, stream_text(rs, tail)))
         except Exception:  # noqa
@@ -704,8 +823,11 @@ def run(c):
     race_stress(c, quick)
     c.cov["rule"] = ("snapshot: one workload = one document (every example output + a synthetic invoice per regime x addon and seeded "
                      "addon pairs) run through parse/calculate/validate/correct/replicate/sign with a deep registry snapshot after "
-                     "each; bulk: one stream = 5..60 (thorough: up to 400) requests of mixed actions and sleep latencies, 30% ending "
-                     "in a decode error, judged by the extracted acceptance predicate; distinct = distinct workloads / streams; "
+                     "each; result equivalence: one workload = one document (examples, synthetic invoices, FULL invoices/orders/payments/"
+                     "deliveries per add-on and ordered add-on pair x payment means key) calculated in three orders in fresh processes; "
+                     "bulk: one stream = 5..60 (thorough: up to 400) requests of mixed actions and sleep latencies (sign requests: half "
+                     "with their own private key, half with the server's default key; every signature verified against the key it was "
+                     "to be made with), 30% ending in a decode error, judged by the extracted acceptance predicate; distinct = distinct workloads / streams; "
                      "race stress operations are counted but are support, not part of the correspondence")
     if not proved:
         pr = c.proof
@@ -731,6 +853,16 @@ def replay(path):
         text = (r.get("minimised_stream") or r["stream"]).encode()
         out = run_bulk(srv, text)
         print(out)
+        try:   # who signed the sign replies
+            reqs = [json.loads(l) for l in text.decode().splitlines() if l.startswith("{")]
+            reqs = [q for q in reqs if isinstance(q, dict) and isinstance(q.get("action"), str)]
+            obs = parse_stream(out)
+            sigcheck(Standalone(keyfile, keyfile, tmp), reqs, obs)
+            for o in obs:
+                if isinstance(o.get("payload"), dict) and "_signed_by" in o["payload"]:
+                    print("seq_id %s req_id %s signed by: %s" % (o.get("seq_id"), o.get("req_id"), o["payload"]["_signed_by"]))
+        except Exception as e:  # noqa
+            print("signature check not possible: %r" % e)
     finally:
         srv.stop()
         sh("rm -rf " + tmp)
